@@ -82,6 +82,37 @@ def o1_update(ctx, role, lvl, n, frames=1, tr=None, first=None, relay=False):
     ctx.reached()
 
 
+def o1_then_short(ctx, role, lvl, n2, same_call):
+    """a well-formed frame is handled first (queued, forwarded or consumed), then a payload shorter than a header arrives - in the
+    same update() pass or in a later one: it is dropped, i.e. nothing (in particular not the earlier frame again) is queued or
+    transmitted because of it"""
+    clock = fresh_env(ctx)
+    radio, node, addr = build_node(ctx, clock, role, lvl)
+    link, outcome = per_packet_link(ctx, radio, always=True)
+    first = ctx.bytes("rx0", 10)
+    h = header_of(first)
+    ctx.assume(s_and(NS.valid(h["from_node"]), h["from_node"] != addr, h["message_type"] <= 127,
+                     s_or(NS.valid(h["to_node"]), h["to_node"] == 0o100)))
+    short = ctx.bytes("rx1", n2)
+    radio.inject_rx(ctx.int("pipe0", 0, 5), blist(first))
+    if same_call:
+        radio.inject_rx(ctx.int("pipe1", 0, 5), blist(short))
+        node.update()
+        queued, sent = queue_frames(node), distinct_packets(radio, 0)
+        ctx.check(len(queued) <= 1, "the short payload queues nothing (at most the well-formed frame is queued, once)")
+        ctx.check(len([e for e in sent if e["data"][6] != 193]) <= 1, "the short payload is not retransmitted (at most the well-formed frame is forwarded, once)")
+    else:
+        node.update()
+        queue_frames(node)
+        sent0 = len(radio.sent)
+        radio.inject_rx(ctx.int("pipe1", 0, 5), blist(short))
+        ret = node.update()
+        ctx.check(len(queue_frames(node)) == 0, "frames shorter than a header are not queued")
+        ctx.check(len(distinct_packets(radio, sent0)) == 0, "frames shorter than a header are not retransmitted")
+        ctx.check(ret == 0, "update() reports no message type for a dropped payload")
+    ctx.reached()
+
+
 def o2_valid(ctx, kind):
     from circuitpython_nrf24l01.network.structs import is_address_valid
     if kind == "none":
@@ -126,6 +157,11 @@ def jobs(tier):
         for role in ROLES:
             out.append(Job("O1-update-two-frames", o1_update, dict(role=role, lvl=0 if role == "master" else 2, n=8, frames=2, first="consumed"),
                            cost=2000, shards=16))
+    for role, lvl, n2 in ((("net", 2, 7), ("routing", 1, 1), ("master", 0, 5), ("mesh", 3, 0)) if tier == "quick" else
+                          [(r, l, n2) for r, l in (("net", 2), ("routing", 1), ("master", 0), ("mesh", 3), ("net", 0)) for n2 in range(8)]):
+        for same in (False, True):
+            out.append(Job("O1-short-payload-after-a-handled-frame", o1_then_short, dict(role=role, lvl=lvl, n2=n2, same_call=same),
+                           cost=40, shards=4))
     for kind in ("none", "neg", "low", "high"):
         out.append(Job("O2-is_address_valid", o2_valid, dict(kind=kind), cost=5, crosscheck=True))
     return out
